@@ -344,3 +344,152 @@ FAMILIES = {
   "win": Family("win", IMPORTS, "wcase", "corr_win", "holds_win", gen_win, run_win, lit_win, nontrivial_win),
   "dict": Family("dict", IMPORTS, "dcase", "corr_dict", "holds_dict", gen_dict, run_dict, lit_dict, nontrivial_dict),
 }
+
+
+# ------------------------------------------------------------------------------------------------ enclosures
+ENCL_ALPHAS = {   # inside the documented domains only
+  "blackman": [None, ["float", (0.16).hex()], ["float", (2.0 * 1430 / 18608).hex()], ["int", 0],
+               ["float", (0.25).hex()], ["float", (-0.25).hex()], ["float", (0.1).hex()]],
+  "cos": [None, ["int", 1], ["int", 0], ["int", 2], ["int", 3], ["float", (1.5).hex()], ["float", (2.5).hex()],
+          ["float", (0.5).hex()]],
+}
+ENCL_PER_FILE = 120
+# documented closed forms (C14/Spec.v); blackman and cos take alpha first
+DOC = {"hann": "doc_hann", "hamming": "doc_hamming", "rect": "doc_rect", "bartlett": "doc_bartlett",
+       "triangular": "doc_triangular", "blackman": "doc_blackman", "cos": "doc_cos"}
+
+
+def has_pow(t):
+  if t[0] == "bin" and t[1] == "Bpow":
+    return True
+  return any(has_pow(x) for x in t[1:] if isinstance(x, tuple))
+
+
+def encl_cases(tier, rng):
+  """(name, symm, size, alpha, n): sample n of window[name](size) or wsymm[name](size)"""
+  d = TABLE["data"]
+  if d is None:
+    return []
+  combos = []
+  for r in d["rows"]:
+    p = r["names"][0]
+    alphas = ENCL_ALPHAS.get(p, [None, ["int", 1]]) if r["default"] is not None else [None]
+    for symm in (False, True):
+      if symm and not r["distinct"]:
+        continue
+      for size in range(1, 65):
+        for ai, a in enumerate(alphas):
+          if tier != "quick" and ai > 0 and size % 3 != ai % 3:
+            continue      # thorough: every size with the default alpha, a third of the sizes per other alpha
+          for n in range(size):
+            combos.append((p, symm, size, a, n))
+  if tier == "quick":
+    combos = rng.sample(combos, min(400, len(combos)))
+    combos.sort(key=lambda c: (c[0], c[1], c[2], str(c[3]), c[4]))
+  return combos
+
+
+def extra(chk, tier, rng):
+  """Interval enclosures: every selected observed sample against the REAL value of the documented closed form
+  (Coq goal `encl doc_X n size v tol`, closed by the interval tactic).  A goal that does not check is a
+  concrete failing sample."""
+  import audiolazy
+  d = TABLE["data"]
+  if d is None:
+    return
+  rows_by = dict((r["names"][0], r) for r in d["rows"])
+  tmpl = {False: d["tmpl_window"], True: d["tmpl_wsymm"]}
+  cache = {}
+  goals = []      # (case dict, coq text)
+  t0 = time.time()
+  skipped = 0
+  for p, symm, size, a, n in encl_cases(tier, rng):
+    r = rows_by[p]
+    sd = audiolazy.wsymm if symm else audiolazy.window
+    key = (p, symm, size, json.dumps(a))
+    if key not in cache:
+      try:
+        cache[key] = sd[p](size) if a is None else sd[p](size, alpha_value(a))
+      except Exception as e:
+        cache[key] = e
+    out = cache[key]
+    case = {"name": p, "dict": "wsymm" if symm else "window", "size": size, "alpha": a, "n": n}
+    if isinstance(out, Exception) or not isinstance(out, list) or len(out) != size or type(out[n]) is not float \
+       or out[n] != out[n] or out[n] in (float("inf"), float("-inf")):
+      chk.violations.append({"family": "encl", "case": case, "model_agrees": False,
+                             "observed": {"not a finite float sample": repr(out if isinstance(out, Exception) else out[n:n + 1])}})
+      continue
+    special, tsize, tcount = tmpl[symm]
+    if special is not None and size == special[0]:
+      skipped += 1      # the constant special case: decided exactly by the correspondence family
+      continue
+    esize = eval_sexpr(tsize, size)
+    if has_pow(r["formula"]) and (n == 0 or n == esize):
+      skipped += 1      # base of the power exactly 0 over R: decided by the exact correspondence only
+      continue
+    if a is None and r["default"] is not None:
+      av = Fraction(r["default"][1], r["default"][2]) if r["default"][0] == "dec" else Fraction(r["default"][1])
+      if r["default"][0] == "dec":
+        av = Fraction(r["default"][3])       # the float the code really uses
+    elif a is None:
+      av = Fraction(0)
+    else:
+      av = Fraction(alpha_value(a))
+    tol = Fraction(1, 2 ** 45)
+    if p == "cos" and 0 < av < 1:
+      tol = Fraction(1, 2 ** 20)
+    v = Fraction(out[n])
+    case["value"] = out[n].hex()
+    if p not in DOC:
+      chk.broken.append(("tie", "enclosure", "no documented closed form for strategy %r in C14/Spec.v" % p))
+      continue
+    w = DOC[p] if r["default"] is None else "(%s (%d / %d))" % (DOC[p], av.numerator, av.denominator)
+    goals.append((case, "Goal encl %s (%d) (%d) (%d / %d) (%d / %d). Proof. encl_tac. Qed."
+                  % (w, n, esize, v.numerator, v.denominator, tol.numerator, tol.denominator)))
+  os.makedirs(chk.bdir, exist_ok=True)
+  for old in os.listdir(chk.bdir):
+    if old.startswith("encl_"):
+      os.remove(os.path.join(chk.bdir, old))
+  files = []
+  header = ["From Coq Require Import Reals ZArith.", "From AL Require Import C14.Model C14.Spec C14.Encl.",
+            "Open Scope R_scope."]
+  for k in range(0, len(goals), ENCL_PER_FILE):
+    path = os.path.join(chk.bdir, "encl_%d.v" % (k // ENCL_PER_FILE))
+    with open(path, "w") as f:
+      f.write("\n".join(header + [g for _, g in goals[k:k + ENCL_PER_FILE]]) + "\n")
+    files.append((k, path))
+  results = chk._coqc_many([p for _, p in files])
+  bad = 0
+  for (k, path), (rc, out) in zip(files, results):
+    if rc == 0:
+      continue
+    import re
+    m = re.search(r'line (\d+), characters', out)
+    idx = int(m.group(1)) - len(header) - 1 if m else -1
+    if m and 0 <= idx < ENCL_PER_FILE and k + idx < len(goals) and \
+       ("Numerical evaluation failed" in out or "Tactic failure" in out):
+      bad += 1
+      chk.violations.append({"family": "encl", "case": goals[k + idx][0], "model_agrees": False,
+                             "observed": {"sample": goals[k + idx][0].get("value"),
+                                          "goal": goals[k + idx][1][:400], "coq": out[-300:]}})
+    else:
+      chk.broken.append(("tie", "enclosure", "file %s did not compile: %s" % (os.path.basename(path), out[-600:])))
+  fs = chk.stats["families"].setdefault("encl", {"cases": 0, "corr_bad": 0, "holds_bad": 0})
+  fs["cases"] += len(goals); fs["holds_bad"] += bad; fs["skipped_exact_only"] = skipped
+  fs["wall_s"] = round(time.time() - t0, 1)
+  chk.stats["evaluations"] += len(goals)
+  for case, _ in goals:
+    chk.stats["tags"]["encl:name=" + case["name"]] += 1
+    if case["n"] not in (0, case["size"] - 1):
+      chk.stats["nontrivial_hashes"].add(hashlib.sha1(("encl" + json.dumps(case, sort_keys=True)).encode()).hexdigest())
+  if goals:
+    chk.stats["samples"].append({"family": "encl", "case": goals[len(goals) // 2][0], "observed": goals[len(goals) // 2][1][:300]})
+
+
+def eval_sexpr(s, size):
+  if s[0] == "SSize":
+    return size
+  if s[0] == "SInt":
+    return s[1]
+  a, b = eval_sexpr(s[1], size), eval_sexpr(s[2], size)
+  return a + b if s[0] == "SAdd" else a - b
